@@ -587,7 +587,9 @@ impl Scriptlet {
             ));
         }
 
-        if let Some(prog) = self.program {
+        // an empty interpreter list would become an index entry with a count of zero, which rpm
+        // rejects when loading the header
+        if let Some(prog) = self.program.filter(|prog| !prog.is_empty()) {
             records.push(IndexEntry::new(
                 prog_tag,
                 offset,
